@@ -33,7 +33,11 @@ RULE = (
     "of the mass, wrong side of the coupling reference, masses that come out unsorted); one case in four calls "
     "msbar_masses.evolve directly between two (scale, nf) points in their natural patches (or on the wall just "
     "crossed) at unit ratios, or crosses one matching scale up and back down (orders 3-4, ratio in [0.5,2], at "
-    "alpha_s, alpha_s/2, alpha_s/4). Exhaustive part: the "
+    "alpha_s, alpha_s/2, alpha_s/4), or compares one evolve call across two or three matching scales (up and down, "
+    "orders 2-4, ratios in [0.5,2]) with the same path cut into legs that cross one matching scale each; the mass "
+    "inputs also include references two patches away from the target patch (charm given above m_t, top given "
+    "below m_c), which are re-evolved leg by leg to the returned mass, and neighbour references sitting exactly "
+    "on the coupling reference scale. Exhaustive part: the "
     "decoupling tables for nl = 3,4,5. Non-trivial = QCD order >= 2 and Q_m != m for at least one quark (or a "
     "table case); distinct by case."
 )
@@ -54,6 +58,9 @@ ASSUMPTIONS = [
     "self-consistency of the two code paths (every quark, any ratios / xif): evolve(m_ref^2, Q_m^2, Couplings built "
     "as compute does, matching, xif2, q2_to = returned m^2, nf at Q_m by the returned masses, target patch) must "
     "return the computed m^2 within 1e-6 (only fsolve, xtol 1.5e-8, lies in between; clean tree: <= 4e-14)",
+    "composition: evolve over several matching scales in one call vs threshold by threshold (legs joined inside "
+    "the intermediate patches) within 1e-9 relative on m^2, and compute vs the leg-wise re-evolution within 1e-6; "
+    "both sides share every kernel and the open matching-once finding, clean tree residuals <= 1e-14",
     "round trip: up x down - 1 must be beyond the order of the decoupling relation; flagged only if it exceeds "
     "5 u^2 (u = U - 1; the clean tree gives exactly -u^2) AND its measured exponent in a_s(threshold) between "
     "alpha_s/2 and alpha_s/4 is below order - 0.3; the in-patch running must cancel on a round trip within 1e-7 "
@@ -76,6 +83,7 @@ _RESIDUALS = None  # calibration hook (set to a list by a calibration script; ne
 TOL_EXACT = 1e-5
 TOL_SELF = 1e-6  # compute vs evolve on m^2: same kernels on both sides, only fsolve (xtol 1.5e-8) in between
 TOL_INPATCH = 1e-7
+TOL_COMPOSE = 1e-9  # one evolve call vs the same path cut into legs: identical kernels, only quadrature re-association
 TOL_EXPANDED = 1e-6
 EDGE_MARGIN = 1e-6
 MZ = 91.2
@@ -221,37 +229,48 @@ def strategy(tier):
         masses, modes = [], []
         for i in range(3):
             above = i + 3 >= nf_ref  # quark not active at the reference
-            mode = draw(st.sampled_from(["adjoining", "far", "equal", "far"]))
+            mode = draw(st.sampled_from(["adjoining", "far", "equal", "far", "very-far"]))
             f = draw(st.floats(0.0, 1.0))
+            on_ref = draw(st.integers(0, 3)) == 0  # neighbours: mass reference exactly on the coupling reference
             if mode == "equal":
                 masses.append([t[i], t[i]])
                 modes.append(mode)
                 continue
+            exact_q = None
             if above:
                 if i + 3 == nf_ref:  # neighbour above the reference: Qref <= Qm < m
                     a, b = qref, 0.97 * t[i]
                     mode = "adjoining"
+                    if on_ref:
+                        exact_q = qref
                 else:
                     edge = t[i - 1] * max(1.0, ratios[i - 1])
-                    if mode == "far":
+                    a = b = 0.0
+                    if mode == "very-far" and i == 2:
+                        # top given below the charm mass: two matching scales between Qm and its target patch
+                        a, b = max(1.05 / lowx, 0.75 * tc), 0.92 * tc * min(1.0, ratios[0])
+                    if mode in ("far", "very-far") and a >= b:
                         a, b = max(1.25 / lowx, 0.5 * t[i - 1]), 0.9 * t[i - 1] * min(1.0, ratios[i - 1])
-                    else:
-                        a, b = 1.1 * edge, 0.97 * t[i]
-                    if a >= b:
+                    if mode == "adjoining" or a >= b:
                         mode, a, b = "adjoining", 1.1 * edge, 0.97 * t[i]
             else:
                 if i + 4 == nf_ref:  # neighbour below the reference: m <= Qm <= Qref
                     a, b = 1.03 * t[i], qref
                     mode = "adjoining"
+                    if on_ref:
+                        exact_q = qref
                 else:
                     edge = t[i + 1] * min(1.0, ratios[i + 1])
-                    if mode == "far":
+                    if mode == "very-far" and i == 0:
+                        # charm given above the top mass: two matching scales between Qm and its target patch
+                        a, b = 1.1 * tt * max(1.0, ratios[2]), 2.5 * tt
+                    elif mode in ("far", "very-far"):
                         a, b = 1.1 * t[i + 1] * max(1.0, ratios[i + 1]), 2.5 * t[i + 1]
                     else:
                         a, b = 1.03 * t[i], 0.9 * edge
                     if a >= b:
                         mode, a, b = "far", 1.1 * t[i + 1] * max(1.0, ratios[i + 1]), 2.5 * t[i + 1]
-            qm = a * (b / a) ** f
+            qm = a * (b / a) ** f if exact_q is None else exact_q
             masses.append([_lo_mass(t[i], qm, amz), qm])
             modes.append(mode)
         expect = "ok"
@@ -335,7 +354,27 @@ def strategy(tier):
             "xif": draw(st.sampled_from([1.0, 1.0, draw(st.floats(0.7, 1.5))])),
         }
 
-    return st.one_of(build(), build(), build(), build_evolve(), build_roundtrip())
+    @st.composite
+    def build_compose(draw):
+        order = draw(st.sampled_from([3, 4, 2]))
+        method = draw(st.sampled_from(["expanded", "exact"]))
+        walls = [draw(st.floats(1.4, 1.9)), draw(st.floats(4.0, 5.0)), draw(st.floats(150.0, 180.0))]
+        unit = draw(st.integers(0, 3)) == 0
+        # charm ratio >= 1 and bottom >= 0.6 keep the scales where evolve switches (m^2 r^4) perturbative
+        ratios = [1.0] * 3 if unit else [draw(st.floats(1.0, 1.6)), draw(st.floats(0.6, 2.0)), draw(st.floats(0.5, 2.0))]
+        nf_from, nf_to = draw(st.sampled_from([(3, 5), (4, 6), (3, 6)]))
+        if draw(st.booleans()):
+            nf_from, nf_to = nf_to, nf_from
+        lg = lambda lo, hi: lo * (hi / lo) ** draw(st.floats(0.0, 1.0))  # noqa: E731
+        span = {3: (1.25, 1.9), 4: (2.0, 4.0), 5: (6.0, 140.0), 6: (200.0, 500.0)}
+        return {
+            "kind": "compose", "order": order, "method": method, "nf_ref": 5, "qref": 91.2,
+            "alphas": draw(st.floats(0.110, 0.125)), "walls": walls, "ratios": ratios,
+            "xif": draw(st.sampled_from([1.0, 1.0, draw(st.floats(0.8, 1.4))])),
+            "from": [lg(*span[nf_from]), nf_from], "to": [lg(*span[nf_to]), nf_to], "m": draw(st.floats(1.0, 5.0)),
+        }
+
+    return st.one_of(build(), build(), build(), build_evolve(), build_roundtrip(), build_compose())
 
 
 def enumerate_cases(tier):
@@ -482,6 +521,28 @@ def _running_mass_unit_ratios(case, sc, i, m2, nf_t, mu2_to):
     return model_evolve(case["method"], case["order"], sc, m2, m, q2, nf, mu2_to, nf_t)
 
 
+def legwise_evolve(mm, m2, q2, sc, matching, xif2, q2_to, nf_from, nf_to, thr):
+    """Carry m2 from (q2, nf_from) to (q2_to, nf_to) with one ``evolve`` call per matching scale.
+
+    ``thr`` are the three scales at which ``evolve`` itself switches flavour number; consecutive legs are joined
+    inside the intermediate patch (geometric mean of its two walls), the last leg ends at the target."""
+    step = 1 if nf_to > nf_from else -1
+    nf = nf_from
+    while nf != nf_to:
+        nxt = nf + step
+        if nxt == nf_to:
+            q2_mid = q2_to
+        else:
+            lo = thr[nxt - 4] if nxt > 3 else 1.5
+            hi = thr[nxt - 3] if nxt < 6 else 1e6
+            q2_mid = math.sqrt(lo * hi)
+        m2 = float(mm.evolve(m2, q2, sc, list(matching), xif2, q2_mid, nf_ref=nf, nf_to=nxt))
+        q2, nf = q2_mid, nxt
+    if nf_from == nf_to:
+        m2 = float(mm.evolve(m2, q2, sc, list(matching), xif2, q2_to, nf_ref=nf, nf_to=nf))
+    return m2
+
+
 def _self_consistency(res, case, sc, matching, xif2, i, nf_t, out, label):
     """The property itself, between the two code paths: the public ``evolve`` run from (m_ref, Q_m) to the
     returned mass with the same coupling, order, matching ratios and xif must land on the returned mass
@@ -508,6 +569,26 @@ def _self_consistency(res, case, sc, matching, xif2, i, nf_t, out, label):
             f"quark {i + 4}: compute returned m^2 = {out[i]!r}, but evolve(m_ref^2, Qm^2, coupling, matching, xif2, "
             f"q2_to=m^2, nf_ref={nf_at_ref}, nf_to={nf_t}) = {back!r} (rel. diff {rel:.3e} > {TOL_SELF}); case={case}",
         )
+    if abs(nf_at_ref - nf_t) >= 2:
+        # the running mass changes by the decoupling relation at *each* matching scale: carry the reference
+        # mass threshold by threshold (one matching scale per evolve call) to the returned mass
+        thr = [w * r * xif2 * r for w, r in zip(out, matching)]
+        try:
+            legs = legwise_evolve(mm, m * m, q2, sc, matching, xif2, out[i], nf_at_ref, nf_t, thr)
+        except Exception as e:  # noqa: BLE001
+            res.fail(exc_bucket(f"{ID}/self-consistency/call", e), f"{e!r} for quark {i + 4}; case={case}")
+            return
+        rel = abs(legs / out[i] - 1.0)
+        res.classes.append(f"selfcheck/legwise/crossings={abs(nf_at_ref - nf_t)}")
+        if _RESIDUALS is not None:
+            _RESIDUALS.append((case["method"], "self-consistency/legwise", case["order"], float(rel)))
+        if not rel <= TOL_SELF:
+            res.fail(
+                f"{ID}/self-consistency/compute-vs-legwise-evolve",
+                f"quark {i + 4}: compute returned m^2 = {out[i]!r}, but carrying (m_ref, Qm) threshold by threshold "
+                f"(nf {nf_at_ref} -> {nf_t}, one matching scale per evolve call) gives {legs!r} "
+                f"(rel. diff {rel:.3e} > {TOL_SELF}); case={case}",
+            )
 
 
 def check_masses(case):
@@ -829,9 +910,52 @@ def check_roundtrip(case):
     return res
 
 
+def check_compose(case):
+    """One ``evolve`` call across two or three matching scales = the same path threshold by threshold."""
+    from eko import msbar_masses as mm
+    from eko.couplings import Couplings
+    from eko.quantities.couplings import CouplingEvolutionMethod, CouplingsInfo
+    from eko.quantities.heavy_quarks import QuarkMassScheme
+
+    res = CaseResult()
+    order, method = case["order"], case["method"]
+    xif2 = case["xif"] ** 2
+    ratios2 = [r * r for r in case["ratios"]]
+    walls2 = [w * w for w in case["walls"]]
+    (qf, nf_from), (qt, nf_to) = case["from"], case["to"]
+    n = abs(nf_to - nf_from)
+    res.nontrivial = bool(order >= 3 and n >= 2)
+    res.classes = [f"compose/order={order}", f"compose/method={method}", f"compose/crossings={n}",
+                   "compose/" + ("up" if nf_to > nf_from else "down"),
+                   "compose/ratios=1" if all(r == 1.0 for r in case["ratios"]) else "compose/ratios!=1"]
+    info = CouplingsInfo.from_dict(dict(alphas=case["alphas"], alphaem=0.007496252, ref=(case["qref"], case["nf_ref"])))
+    sc = Couplings(info, order=(order, 0), method=CouplingEvolutionMethod(method), masses=walls2,
+                   hqm_scheme=QuarkMassScheme.MSBAR, thresholds_ratios=[r * xif2 for r in ratios2])
+    thr = [w * r * xif2 * r for w, r in zip(walls2, ratios2)]
+    m2 = case["m"] ** 2
+    try:
+        one = float(mm.evolve(m2, qf * qf, sc, ratios2, xif2, qt * qt, nf_ref=nf_from, nf_to=nf_to))
+        legs = legwise_evolve(mm, m2, qf * qf, sc, ratios2, xif2, qt * qt, nf_from, nf_to, thr)
+    except Exception as e:  # noqa: BLE001
+        res.fail(exc_bucket(f"{ID}/composition/call", e), f"{e!r} for {case}")
+        return res
+    rel = abs(one / legs - 1.0)
+    if _RESIDUALS is not None:
+        _RESIDUALS.append((method, "composition", order, float(rel)))
+    if not rel <= TOL_COMPOSE:
+        res.fail(
+            f"{ID}/composition/evolve-one-call-vs-legs/" + ("order>=3" if order >= 3 else f"order={order}"),
+            f"evolve nf {nf_from}->{nf_to} in one call gives m^2 = {one!r}, threshold by threshold {legs!r} "
+            f"(rel. diff {rel:.3e} > {TOL_COMPOSE}); case={case}",
+        )
+    return res
+
+
 def check_case(case):
     if case["kind"] == "decoupling":
         return check_decoupling(case)
+    if case["kind"] == "compose":
+        return check_compose(case)
     if case["kind"] == "roundtrip":
         return check_roundtrip(case)
     if case["kind"] == "evolve":
